@@ -129,6 +129,45 @@ def observe(snd: Sound) -> Any:
     }
 
 
+# numeric values of the PITCH_* constants (SDK soundflags.h), held by the harness independently of the library
+PITCH_VALUES = {'PITCH_NORM': 100.0, 'PITCH_LOW': 95.0, 'PITCH_HIGH': 120.0}
+
+
+def _exp_elem(x: Any) -> tuple:
+    if isinstance(x, str):
+        return ('num', PITCH_VALUES[x]) if x in PITCH_VALUES else ('const', x)
+    return ('num', float(x))
+
+
+def _exp_tree(nodes: Any) -> list:
+    return [(name, _exp_tree(val) if isinstance(val, list) else val) for name, val in (nodes or [])]
+
+
+def expected_one(s: dict) -> dict:
+    """What observe() must yield, computed from the plain descriptors."""
+    ch = s['channel']
+    stacks = {k: _exp_tree(s[k]) for k in ('stack_start', 'stack_update', 'stack_stop')}
+    return {
+        'name': s['name'],
+        'sounds': [('str', w) for w in s['sounds']],
+        'volume': (_exp_elem(s['volume'][0]), _exp_elem(s['volume'][1])),
+        'channel': ('const', ch) if isinstance(ch, str) else ('int', ch),
+        'level': (_exp_elem(s['level'][0]), _exp_elem(s['level'][1])),
+        'pitch': (_exp_elem(s['pitch'][0]), _exp_elem(s['pitch'][1])),
+        **stacks,
+        'v2': bool(s['force_v2'] or any(stacks.values())),
+    }
+
+
+def expected(setting: dict) -> list:
+    out = [expected_one(setting)]
+    if setting['file'] == 'two_sounds':
+        out.append(expected_one(FILLER))
+    elif setting['file'] == 'second_first':
+        out.insert(0, expected_one(FILLER))
+    return out
+
+
 def write(sounds: list) -> str:
     buf = io.StringIO()
     for s in sounds:
@@ -140,8 +179,14 @@ def read(text: str) -> dict:
     return Sound.parse(Keyvalues.parse(text, 'c20.txt', allow_escapes=False))
 
 
-def roundtrip(sounds: list, res: Result, what: str) -> None:
-    want = [observe(s) for s in sounds]
+def roundtrip(sounds: list, res: Result, what: str, want: Any = None) -> None:
+    held = [observe(s) for s in sounds]
+    if want is None:
+        want = held
+    elif held != want:
+        res.fail('sndscript_value_mismatch', f'{what}: the constructed Sound does not hold the given value:\n'
+                                             f' given {want!r}\n holds {held!r}'[:1500])
+        return
     try:
         text = write(sounds)
     except Exception as exc:  # noqa: BLE001
@@ -239,7 +284,7 @@ def evaluate(setting: dict) -> Result:
     except Exception as exc:  # noqa: BLE001 - constructing a value from documented types must not fail
         res.fail('sndscript_write_error', f'constructing Sound raised {excs(exc)}')
         return res
-    roundtrip(sounds, res, 'generated value')
+    roundtrip(sounds, res, 'generated value', expected(setting))
     return res
 
 
@@ -294,6 +339,8 @@ def run(ctx: core.Ctx) -> None:
         f'tests/test_sndscript.py::test_parse (no soundscript file exists under tests/). Non-trivial = reader returned a '
         f'value that was compared.')
     ctx.rule = RULE
+    ctx.assumptions.append('C20/sndscript: the text -> Keyvalues step is Keyvalues.parse(allow_escapes=False), the call '
+                           'srctools.packlist uses for soundscript files (the format has no escape sequences)')
 
 
 def replay(case: dict) -> list:
